@@ -5,6 +5,8 @@ import OtelVerif.Model.C01Classify
 import OtelVerif.Model.C01Bytes
 import OtelVerif.Model.C01Trace
 import OtelVerif.Model.C01Codec
+import OtelVerif.Model.C01Glue
+import OtelVerif.Model.C01Config
 /-! driver for C01: models `c01-pq` (queue machine with deaths) and `c01-codec` (index byte codecs) -/
 open OtelVerif OtelVerif.Line OtelVerif.C01
 
@@ -206,6 +208,16 @@ def pqOnObs (s : DS) (toks : List String) : DS :=
     match parseShape shape, want with
     | some t, some w => if outcomeOf t = w then s else { s with classBad := some shape }
     | _, _ => { s with classBad := some ("unparsable:" ++ shape) }
+  | "tr" :: "errparts" :: shapes =>
+    -- the `done` op just read went through the real refCountDone with one error per flush: the outcome label is the
+    -- classification of the model's `aggregate` (C01_refcount_aggregate_shutdown_iff: shutdown iff some part is)
+    let want : Option Outcome := match kv s.lastOp "oc" with
+      | some "shut" => some .shutdownErr
+      | some _ => some .final
+      | Option.none => Option.none
+    match shapes.mapM parseShape, want with
+    | some ps, some w => if outcomeOf (aggregate ps) = w then s else { s with classBad := some ("parts:" ++ "|".intercalate shapes) }
+    | _, _ => { s with classBad := some ("unparsable-parts:" ++ "|".intercalate shapes) }
   | "obs" :: rest =>
     let opk := s.lastOp.head?.getD "?"
     let r := (kv rest "r").getD "?"
@@ -307,6 +319,272 @@ def expHandler : Handler TState where
      | some id => s!"prop handed=FAIL sig=C01/exporter/trace/accepted-never-handed id={id}"
      | Option.none => "prop handed=ok"]
 
+
+/-! ### glue machine (`Model/C01Glue.lean`): exact differential against QueueSender → asyncQueue → persistentQueue over the
+real retry sender, under synctest (harness `glue`) -/
+
+/-- a run of glue labels with a planned death: the incarnation dies right after its `die`-th storage call (counted from
+    `c0`); every firing makes at most one storage call, so the check after each firing is exact -/
+structure GRun where
+  g : GCfg
+  c0 : Nat := 0
+  die : Nat := 0
+  died : Bool := false
+
+def GRun.step (rs : GRun) (l : GLabel) : GRun :=
+  if rs.died then rs else
+  let g' := fireG rs.g l
+  if rs.die > 0 ∧ g'.q.calls - rs.c0 ≥ rs.die then { rs with g := fireG g' (.env .crash), died := true }
+  else { rs with g := g' }
+
+/-- continue the pending queue operation one storage call at a time -/
+def GRun.settleQ (rs : GRun) : GRun :=
+  let rec go (fuel : Nat) (rs : GRun) : GRun :=
+    match fuel with
+    | 0 => rs
+    | fuel + 1 => if rs.died || !rs.g.q.alive || rs.g.q.idle then rs else go fuel (rs.step (.env .tick))
+  go 100000 rs
+
+/-- quiescence: every goroutine at the head of its loop calls `Read` (lowest index first; which goroutine gets which item
+    is not observable) and enters the export function with what it got -/
+def GRun.eager (rs : GRun) : GRun :=
+  let n := rs.g.gk.n
+  let rec go (fuel j : Nat) (rs : GRun) : GRun :=
+    match fuel with
+    | 0 => rs
+    | fuel + 1 =>
+      if j ≥ n || rs.died then rs else
+      match rs.g.cons[j]? with
+      | some .idle =>
+        let rs1 := (rs.step (.cRead j)).settleQ
+        match rs1.g.cons[j]? with
+        | some (.got _ _) => go fuel (j + 1) (rs1.step (.cInvoke j))
+        | some .exited => go fuel (j + 1) rs1
+        | _ => rs1
+      | _ => go fuel (j + 1) rs
+  go (n + 1) 0 rs
+
+def sortNat (l : List Nat) : List Nat := (l.toArray.qsort (· < ·)).toList
+
+def showStoreG (s : Store) (hi : Nat) : String :=
+  let items := (List.range (max hi (s.W + 2))).filterMap (fun i =>
+    match s.items i with
+    | some r => some s!"{i}:{r.id}"
+    | Option.none => Option.none)
+  s!"ri={optS s.ri} wi={optS s.wi} si={optS s.si} di={listS (s.di.map toString) ","} items={listS items ";"}"
+
+def showG (res : String) (g : GCfg) (hi : Nat) : String :=
+  let infl := sortNat (g.cons.filterMap (fun (p : CPc) => match p with | CPc.sending _ r => some r.id | _ => Option.none))
+  let wait := sortNat (g.cons.filterMap (fun (p : CPc) => match p with | CPc.backoff _ r _ => some r.id | _ => Option.none))
+  s!"obs r={res} inflight={listS (infl.map toString) ","} waiting={listS (wait.map toString) ","} {showStoreG g.q.st hi}"
+
+structure GS where
+  g : GCfg := initG {} {}
+  ts : TState := {}
+  hi : Nat := 0
+
+def backoffIdx (g : GCfg) : List Nat :=
+  (List.range g.cons.length).filter (fun (j : Nat) => match (g.cons[j]? : Option CPc) with | some (CPc.backoff _ _ _) => true | _ => false)
+
+def glueOnOp (s : GS) (toks : List String) : GS × List String :=
+  let die := (kvNat toks "die").getD 0
+  let rs0 : GRun := { g := s.g, c0 := s.g.q.calls, die := die }
+  let fin (rs : GRun) (res : String) : GS × List String :=
+    let hi := max s.hi (rs.g.q.st.W + 2)
+    ({ s with g := rs.g, hi := hi }, [showG (if rs.died then "died" else res) rs.g hi])
+  match toks.head? with
+  | some "start" =>
+    if s.g.q.alive then (s, ["obs bad-op"]) else fin ((rs0.step (.env .start)).settleQ.eager) "ok"
+  | some "offer" =>
+    match kvNat toks "id" with
+    | some id =>
+      if !s.g.q.alive then (s, ["obs bad-op"]) else
+      let rs1 := rs0.step (.env (.offer ⟨id, 1⟩))
+      fin rs1.settleQ.eager (showRes rs1.g.q.res)
+    | Option.none => (s, ["obs bad-op"])
+  | some "ret" =>
+    match kvNat toks "id", kv toks "res" with
+    | some id, some res =>
+      let j? := (List.range s.g.cons.length).find? (fun (j : Nat) => match (s.g.cons[j]? : Option CPc) with | some (CPc.sending _ r) => r.id == id | _ => false)
+      let res? : Option ExpRes := if res = "ok" then some .ok else if res = "perm" then some (.err .plain true)
+        else if res = "retry" then some (.err .plain false) else Option.none
+      match j?, res? with
+      | some j, some er =>
+        let rs1 := rs0.step (.expRet j er)
+        -- a retryable failure while `stopCh` is already closed: `retrySender.Send` checks `stopCh` before it waits
+        let rs1 := match (rs1.g.cons[j]? : Option CPc) with
+          | some (CPc.backoff _ _ _) => if rs1.g.stopCh then rs1.step (.backoffEnd j .stop) else rs1
+          | _ => rs1
+        let rs2 := match (rs1.g.cons[j]? : Option CPc) with
+          | some (CPc.ret _ _ _) => (rs1.step (.cDone j)).settleQ
+          | _ => rs1
+        fin rs2.eager "ok"
+      | _, _ => (s, ["obs bad-op"])
+    | _, _ => (s, ["obs bad-op"])
+  | some "timer" =>
+    fin ((backoffIdx s.g).foldl (fun rs j => rs.step (.backoffEnd j .timer)) rs0) "ok"
+  | some "rsshutdown" =>
+    let rs1 := rs0.step .rsShutdown
+    let rs2 := (backoffIdx rs1.g).foldl (fun rs j => ((rs.step (.backoffEnd j .stop)).step (.cDone j)).settleQ) rs1
+    fin rs2.eager "ok"
+  | some "qshutdown" => fin ((rs0.step (.env .shutdown)).settleQ.eager) "ok"
+  | some "crash" => fin (rs0.step (.env .crash)) "ok"
+  | _ => (s, ["obs bad-op"])
+
+def glueHandler : Handler GS where
+  init := {}
+  onCase := fun s toks =>
+    let cap := (kvNat toks "cap").getD 0
+    let n := (kvNat toks "consumers").getD 1
+    let retry := (kvNat toks "retry").getD 1 == 1
+    { s with g := initG { n := n, retry := retry } { cap := cap, reqSized := true } }
+  onOp := glueOnOp
+  onObs := fun s toks =>
+    match toks with
+    | ["tr", "ev", "accept", id] => match id.toNat? with | some id => { s with ts := s.ts.step (.accept id) } | Option.none => s
+    | ["tr", "ev", "hand", id] => match id.toNat? with | some id => { s with ts := s.ts.step (.hand id) } | Option.none => s
+    | ["tr", "ev", "final", id] => match id.toNat? with | some id => { s with ts := s.ts.step (.final id) } | Option.none => s
+    | ["tr", "ev", "dump"] => { s with ts := s.ts.step (.dump []) }
+    | ["tr", "ev", "dump", ids] => match parseList ids with | some l => { s with ts := s.ts.step (.dump l) } | Option.none => s
+    | _ => s
+  onEnd := fun s =>
+    [match s.ts.lost with
+     | some (id, pos) => s!"prop stored=FAIL sig=C01/glue/accepted-not-stored-before-an-export-returned-finally id={id} event={pos}"
+     | Option.none => "prop stored=ok",
+     match s.ts.accepted.find? (fun id => !(s.ts.handed.contains id)) with
+     | some id => s!"prop handed=FAIL sig=C01/glue/accepted-never-passed-to-the-export-function id={id}"
+     | Option.none => "prop handed=ok"]
+
+
+/-! ### configuration model (`Model/C01Config.lean`): options → queue configuration → queue object -/
+
+section Config
+open OtelVerif.C01.Cfg
+
+def parseSizer (v : String) : Option SizerT :=
+  if v = "requests" then some .requests else if v = "items" then some .items else if v = "bytes" then some .bytes
+  else if v = "other" then some .other else Option.none
+
+def showSizer : SizerT → String
+  | .requests => "requests" | .items => "items" | .bytes => "bytes" | .other => "other"
+
+def parseBatch (v : String) : Option (Option BatchCfg) :=
+  if v = "-" then some Option.none else
+  match v.splitOn ":" with
+  | [a, b, c] => match a.toInt?, b.toInt?, c.toInt? with
+    | some a, some b, some c => some (some ⟨a, b, c⟩)
+    | _, _, _ => Option.none
+  | _ => Option.none
+
+def showBatch : Option BatchCfg → String
+  | Option.none => "-"
+  | some b => s!"{b.flush}:{b.min}:{b.max}"
+
+def b01 (b : Bool) : String := if b then "1" else "0"
+
+def parseQ (toks : List String) : Option QCfg :=
+  match kvNat toks "en", kvNat toks "wfr", (kv toks "sz").bind parseSizer, kvInt toks "qs", kvNat toks "blk", kv toks "st",
+        kvInt toks "nc", (kv toks "bt").bind parseBatch with
+  | some en, some wfr, some sz, some qs, some blk, some st, some nc, some bt =>
+    let st? : Option (Option Nat) := if st = "-" then some Option.none else st.toNat?.map some
+    st?.map (fun st => { enabled := en == 1, waitForResult := wfr == 1, sizer := sz, queueSize := qs, blockOnOverflow := blk == 1,
+                         storage := st, numConsumers := nc, batch := bt })
+  | _, _, _, _, _, _, _, _ => Option.none
+
+def showQ (c : QCfg) : String :=
+  s!"en={b01 c.enabled} wfr={b01 c.waitForResult} sz={showSizer c.sizer} qs={c.queueSize} blk={b01 c.blockOnOverflow} st={optS c.storage} nc={c.numConsumers} bt={showBatch c.batch}"
+
+def showLB (b : LegacyB) : String := s!"ben={b01 b.enabled} bfl={b.flush} bmin={b.min} bmax={b.max}"
+
+def showVRes : VRes → String
+  | .ok => "ok" | .numConsumers => "numConsumers" | .queueSize => "queueSize" | .waitForResult => "waitForResult"
+  | .persistentSizer => "persistentSizer" | .batchSizer => "batchSizer"
+
+def showRt : Option Runtime → String
+  | Option.none => "obs rt err"
+  | some r =>
+    let kind := match r.kind with | .memory => "memory" | .persistent s => s!"persistent:{s}"
+    let batcher := match r.batcher with
+      | Option.none => "-"
+      | some (b, sz) => s!"{b.flush}:{b.min}:{b.max}:{showSizer sz}"
+    s!"obs rt kind={kind} cap={r.capacity} blk={b01 r.blockOnOverflow} sz={showSizer r.sizer} nc={r.numConsumers} batcher={batcher}"
+
+structure CS where
+  opts : List Opt := []          -- newest first
+  lastQ : Option QCfg := Option.none
+  bad : Option String := Option.none
+
+def cfgOnOp (s : CS) (toks : List String) : CS × List String :=
+  match toks with
+  | "opt" :: rest =>
+    match kv rest "kind" with
+    | some "queue" => match parseQ rest with
+      | some q => ({ s with opts := .queue q :: s.opts }, [])
+      | Option.none => (s, ["obs bad-op"])
+    | some "batcher" =>
+      match kvNat rest "ben", kvInt rest "bfl", kvInt rest "bmin", kvInt rest "bmax" with
+      | some en, some fl, some mn, some mx => ({ s with opts := .batcher ⟨en == 1, fl, mn, mx⟩ :: s.opts }, [])
+      | _, _, _, _ => (s, ["obs bad-op"])
+    | some "retry" => match kvNat rest "en" with
+      | some en => ({ s with opts := .retry (en == 1) :: s.opts }, [])
+      | Option.none => (s, ["obs bad-op"])
+    | _ => (s, ["obs bad-op"])
+  | ["be"] =>
+    let be := applyOpts s.opts.reverse
+    ({ s with lastQ := some be.queueCfg },
+     [s!"obs be {showQ be.queueCfg} {showLB be.batcherCfg} retry={b01 be.retry} qs={b01 be.hasQueueSender} rs={b01 be.retry}"])
+  | "merge" :: rest =>
+    match kvInt rest "maxint", kvInt rest "numcpu" with
+    | some mi, some nc =>
+      let be := applyOpts s.opts.reverse
+      (s, [s!"obs merged {showQ (mergeLegacy be.queueCfg be.batcherCfg mi nc)}"])
+    | _, _ => (s, ["obs bad-op"])
+  | "validate" :: rest =>
+    match parseQ rest with
+    | some q => (s, [s!"obs v={showVRes (validate q)}"])
+    | Option.none => (s, ["obs bad-op"])
+  | "build" :: rest =>
+    match parseQ rest, kvNat rest "legacy" with
+    | some q, some lg => ({ s with lastQ := some q }, [showRt (build q (lg == 1))])
+    | _, _ => (s, ["obs bad-op"])
+  | _ => (s, ["obs bad-op"])
+
+/-- direct oracles on what the IMPLEMENTATION showed: a configured persistent queue is built persistent, on the configured
+    storage, with the configured capacity and blocking (`C01_config_persistent_queue_built_as_configured`), and the legacy
+    batcher merge keeps these settings (`C01_config_legacy_batcher_keeps_queue_settings`) -/
+def cfgOnObs (s : CS) (toks : List String) : CS :=
+  match s.bad, toks with
+  | some _, _ => s
+  | Option.none, "obs" :: "rt" :: rest =>
+    match s.lastQ with
+    | some q =>
+      match q.storage with
+      | some st =>
+        if q.sizer = .other then s else
+        if kv rest "kind" = some s!"persistent:{st}" ∧ kvInt rest "cap" = some q.queueSize ∧ kvNat rest "blk" = some (if q.blockOnOverflow then 1 else 0)
+        then s else { s with bad := some ("persistent-queue-not-built-as-configured " ++ " ".intercalate rest) }
+      | Option.none => s
+    | Option.none => s
+  | Option.none, "obs" :: "merged" :: rest =>
+    match s.lastQ with
+    | some q =>
+      if q.enabled ∧ (kv rest "st" ≠ some (optS q.storage) ∨ kvInt rest "qs" ≠ some q.queueSize ∨
+          kvNat rest "blk" ≠ some (if q.blockOnOverflow then 1 else 0) ∨ kvInt rest "nc" ≠ some q.numConsumers)
+      then { s with bad := some ("legacy-batcher-merge-loses-queue-setting " ++ " ".intercalate rest) } else s
+    | Option.none => s
+  | _, _ => s
+
+def cfgHandler : Handler CS where
+  init := {}
+  onOp := cfgOnOp
+  onObs := cfgOnObs
+  onEnd := fun s =>
+    [match s.bad with
+     | some d => s!"prop config=FAIL sig=C01/config/{d}"
+     | Option.none => "prop config=ok"]
+
+end Config
+
 /-! ### codec model -/
 
 def showBytesRes : Except String (List Nat) → String
@@ -337,4 +615,5 @@ end OtelVerif.Drivers.C01
 
 def main : IO UInt32 :=
   runMulti [("c01-pq", run OtelVerif.Drivers.C01.pqHandler), ("c01-codec", run OtelVerif.Drivers.C01.codecHandler),
-            ("c01-exporter", run OtelVerif.Drivers.C01.expHandler)]
+            ("c01-exporter", run OtelVerif.Drivers.C01.expHandler), ("c01-glue", run OtelVerif.Drivers.C01.glueHandler),
+            ("c01-config", run OtelVerif.Drivers.C01.cfgHandler)]
